@@ -6,25 +6,25 @@ import "verif/harness/mc"
 // into the evidence): kept in one place so that the long rule strings of the drivers stay as they were reviewed.
 var ruleAddenda = map[string]string{
 	"C01": " ROUNDS 7-8: states are merged only when implementation AND model (policy, alphabet) agree; names with a format directive and a trailing vertical tab; Append/Concat arguments with three new names not in sorted order.",
-	"C02": " ROUNDS 7-8: two names of one alignment equal up to case / prefixes of one another / one the automatic duplicate name of the other (12 pairs x 3 shapes); after every write the alignment must still hold its rows.",
+	"C02": " ROUNDS 7-8: two names of one alignment equal up to case / prefixes of one another / one the automatic duplicate name of the other (12 pairs x 3 shapes); after every write the alignment must still hold its rows. Mini-round 9: 1003 x 2100 residues (> 2^21) through one writer per format under GOMAXPROCS 1, 3, 4.",
 	"C03": " ROUNDS 7-8: per format, files of 99..102 and 257 rows in two blocks written by goalign's writers.",
-	"C04": " ROUNDS 7-8: TrimSequences after Append from another alignment and after a.Append(a); partition sets declared site by site; 127..130, 200, 255..258, 300 partitions (one site each and interleaved, 3 builds); extract: a 3-column line after a minus-strand line, a feature name holding a blank.",
+	"C04": " ROUNDS 7-8: TrimSequences after Append from another alignment and after a.Append(a); partition sets declared site by site; 127..130, 200, 255..258, 300 partitions (one site each and interleaved, 3 builds); extract: a 3-column line after a minus-strand line, a feature name holding a blank. Mini-round 9: a rejected TrimSequences leaves rows and Length() as they were and SubAlign(0,L) still works.",
 	"C05": " ROUNDS 7-8: CodonAlign with the nucleotide set in every order and under 8 sets of look-alike names; TranslateByReference after every name was looked up and the rows were re-sorted (every byref case twice).",
-	"C06": " ROUNDS 7-8: a container that refuses a valid input of the family is a violation; command line: names with a blank / tab / other case are unknown names; unalign -o on streams, one file per alignment (-t 1 and 4).",
+	"C06": " ROUNDS 7-8: a container that refuses a valid input of the family is a violation; command line: names with a blank / tab / other case are unknown names; unalign -o on streams, one file per alignment (-t 1 and 4). Mini-round 9: long rows also under GOMAXPROCS 2, 3, 8.",
 	"C07": " ROUNDS 7-8: shapes 0.05, 10, 101, 1000 on a 5-column family for every corrected model.",
 	"C08": " ROUNDS 7-8: failing evaluations on 16 rows (120 pairs) with 1 and 2 workers and one preemption.",
-	"C09": " ROUNDS 7-8: all pairs <= 3 over {A,N,X} under match/mismatch; two flanks of 80 around inserts of 100..520 against the flanks alone, 571 residues with 30 inserted at 8 places under GOMAXPROCS 1,2,3,4,8, both orientations, matrix and match/mismatch schemes, Gotoh oracle.",
-	"C10": " ROUNDS 7-8: bootstrap length for every k/100 on 50 and 100 columns; writes after a whole-length recombination; the same seed (1, -5) with GOMAXPROCS 1,2,3,4,8 on 64x1100 for 10 operations, each run twice.",
+	"C09": " ROUNDS 7-8: all pairs <= 3 over {A,N,X} under match/mismatch; two flanks of 80 around inserts of 100..520 against the flanks alone, 571 residues with 30 inserted at 8 places under GOMAXPROCS 1,2,3,4,8, both orientations, matrix and match/mismatch schemes, Gotoh oracle. Mini-round 9: Alignment() called twice on one aligner: the counts still add up to the length.",
+	"C10": " ROUNDS 7-8: bootstrap length for every k/100 on 50 and 100 columns; writes after a whole-length recombination; the same seed (1, -5) with GOMAXPROCS 1,2,3,4,8 on 64x1100 for 10 operations, each run twice. Mini-round 9: rogue rows with three shuffled sites of four (2x4, 3x4), every RNG answer.",
 	"C11": " ROUNDS 7-8: chains through reformat fasta --unaligned, headers with a description; distboot == seqboot + distance for a protein model with --alpha; unalign -p -o (one file per alignment) with threads.",
-	"C12": " ROUNDS 7-8: every letter in both cases in one column; RemoveGapSites / RemoveCharacterSites / RemoveMajorityCharacterSites on 3 x {40, 257, 1023, 1024, 1027, 2053, 4099} sites under GOMAXPROCS {1,2,3,4,5,7,8,16}, ends on/off, also on the alignment appended to itself twice (rows sharing storage): verdict of a column = verdict on that column alone, result = selection of the kept columns, index lists and leading/trailing counts follow.",
-	"C13": " ROUNDS 7-8: command-line layer for dedup (log plain/.gz x output stdout/file).",
-	"C14": " ROUNDS 7-8: every letter in both cases in one column; per-site statistics of long alignments column-wise; ListMutationsComparedToReferenceSequence(aa=true) on references ATG GCA / TTA CGT with <= 3 gaps inside codons x 3 options per position (same / substituted / gap; inserted A / C / gap) against the documented definition (deletion '-', frameshift '/', amino acids otherwise); stats --per-sequences [--ref-sequence b] on streams.",
-	"C15": " ROUNDS 7-8: long rows column-wise (lengths 5..65 and 300, 520, 1000, 1030 with windows of 255..600 ending inside the alignment); command line with two-digit and zero-padded positions.",
+	"C12": " ROUNDS 7-8: every letter in both cases in one column; RemoveGapSites / RemoveCharacterSites / RemoveMajorityCharacterSites on 3 x {40, 257, 1023, 1024, 1027, 2053, 4099} sites under GOMAXPROCS {1,2,3,4,5,7,8,16}, ends on/off, also on the alignment appended to itself twice (rows sharing storage): verdict of a column = verdict on that column alone, result = selection of the kept columns, index lists and leading/trailing counts follow. Mini-round 9: 255..131082 rows x 3 sites against the harness's own counts (cutoffs 0, 0.5, 1); RemoveGapSeqs on 999..4000 rows with GOMAXPROCS 2, 4 under the controlled scheduler (order of the kept rows).",
+	"C13": " ROUNDS 7-8: command-line layer for dedup (log plain/.gz x output stdout/file). Mini-round 9: Compress of 65537 sites under GOMAXPROCS 2, 3, 8.",
+	"C14": " ROUNDS 7-8: every letter in both cases in one column; per-site statistics of long alignments column-wise; ListMutationsComparedToReferenceSequence(aa=true) on references ATG GCA / TTA CGT with <= 3 gaps inside codons x 3 options per position (same / substituted / gap; inserted A / C / gap) against the documented definition (deletion '-', frameshift '/', amino acids otherwise); stats --per-sequences [--ref-sequence b] on streams. Mini-round 9: long alignments (255..4099 sites) also under GOMAXPROCS 2, 3, 5, 8.",
+	"C15": " ROUNDS 7-8: long rows column-wise (lengths 5..65 and 300, 520, 1000, 1030 with windows of 255..600 ending inside the alignment); command line with two-digit and zero-padded positions. Mini-round 9: long rows also under GOMAXPROCS 2, 3, 8.",
 	"C16": " ROUNDS 7-8: ambiguous codons under each code after the other two were used, in both orders; 7 sequences whose hit leaves less than a codon x translate x cut-end x 2 codes x 1,3 workers x default / disabled cut-offs.",
 	"C17": " ROUNDS 7-8: a kept matrix reads as before after the next call; weights 1e-5..1e-4 per column, 1/4096, x1e5, and normalised weights with one light (0.0005, 1/1500, 0.002) shared column.",
 	"C18": " ROUNDS 7-8: user frequencies with a nearly absent amino acid; one model read by 4 goroutines (free-running); GOMAXPROCS {1,2,3,6,7,8,9,16,19,24} for LG, Dayhoff, GTR, K2P; P(t) of the ML distance code (overlay accessor VerifPMat) for 7 matrices x model/empirical frequencies x gamma off/0.5 x 15 lengths 1e-8..20: entries strictly in [0,1], rows sum to 1.",
 	"C19": " ROUNDS 7-8: every writer and statistic on Transpose / Clone / SubAlign / SelectSites results; the returned mutation list overwritten up to capacity; copy-producing operations on 999..1003, 1023..1027, 2051 rows.",
-	"C20": " ROUNDS 7-8: Dirichlet vectors of 4095, 4096, 4097, 5000, 9000 components, valid and with one invalid component (0, -1, NaN, +Inf) at 6 places, GOMAXPROCS 1,2,3,16 (seeded); weightboot --threads 1,2,3,4,16 x 1,2,5,17 vectors.",
+	"C20": " ROUNDS 7-8: Dirichlet vectors of 4095, 4096, 4097, 5000, 9000 components, valid and with one invalid component (0, -1, NaN, +Inf) at 6 places, GOMAXPROCS 1,2,3,16 (seeded); weightboot --threads 1,2,3,4,16 x 1,2,5,17 vectors. Mini-round 9: samples handed out by earlier calls read as before after later calls; weightboot into an existing longer file.",
 }
 
 // applyRuleAddenda is called once all properties are registered.
